@@ -49,6 +49,9 @@ CHECKS = {
  "C16": ("Go race detector over concurrent table-client and real-pipeline workloads (reports parsed, deduplicated by innermost repository frame pair, filtered to the shared-table code) + porcupine linearizability checking of recorded client histories + survival/deadlock watchdog",
          "Children are built with -race: 2..16 goroutines (GOMAXPROCS 2/4/16) register/unregister routes, tear faces down, edit FIB/strategies, list and look up like a forwarding thread (copy, sort by cost, read) on both FIBs; 4 real forwarding threads process Interests while tables are mutated; 2-4 clients record call/return-stamped histories that porcupine checks against a sequential flattening+LPM model including the final lookups. A race report with a side in fw/table, fw/face/table.go, fw/dispatch or the NLSR readvertiser, a crash, a 60 s stall or a non-linearizable history is a violation.",
          "Interleavings are sampled, not enumerated; race reports on statistics counters / harness / core.ShouldQuit are listed as out of scope in the evidence; porcupine timeout would be inconclusive.", "5/C16"),
+ "C17": ("reference-model monitor over a running mini daemon (2 forwarding threads + management thread + link-service faces on recording transports) in a sacrificial child: responses, direct table reads and decoded status datasets are compared with a harness-side reference after every command",
+         "Generated command histories (8 daemons per run: allow_localhop on/off x both FIBs; 400-6000 commands each): well-formed authorised commands must answer 200, echo the effective parameters (defaults: requesting face, origin app, cost 0, child-inherit) and leave RIB/FIB/strategy/CS/face tables and the five datasets equal to the reference; unauthorised commands (non-local face under /localhost/nfd, /localhop for non-RIB modules or while disabled, other prefixes) must change nothing; malformed / missing / out-of-range ones must answer 4xx and change nothing; the daemon must answer status/general after every command and survive small and 8800-byte packets on updated faces (process death is attributed through the journal).",
+         "Plain build; CS serving is off so that datasets are not the 1 s-fresh cached copies; MTU 23..127 status left open; socket-based face creation not exercised; hooks: fw/face/verif_hooks.go (fd:// recording transport).", "5/C17"),
  "C18": ("reference-model monitor over N real dv.Router objects driven event by event through hooks: advertisements at every fixed point compared with BFS distances of the current topology; bounded-progress check on rounds",
          "Every connected graph on 2..5 routers (exhaustive up to isomorphism; 6 routers sampled in thorough), 2-6 PRNG-fair delivery schedules each (incl. a starved edge), 0-3 link/router removals and link additions: a full round without change must be reached within 2(N+16) rounds after each fault; there cost == hop distance (<16), next hop on a shortest path, unreachable destinations withdrawn, no advertisement ever lists cost >= 16, and next hops are identical across schedules.",
          "Delivery orders are sampled; neighbour expiry is triggered through a lastSeen hook + the real dead-neighbour check; hooks: dv/*/verif_hooks.go.", "5/C18"),
@@ -62,7 +65,7 @@ CHECKS = {
          "Every law of the statement (canonical total order, Equal<=>encoding equality<=>Compare==0, prefix relation, Equal=>Hash equal, PrefixHash[i]=Hash(name[:i]), URI round trip, parsers never panic) is evaluated by an oracle on >10^5 generated, adversarially close cases per run; a run reports the distinct relation/shape classes it actually observed.",
          "Trusted: the harness's own 20-line canonical order; hash collisions are not searched for.", "5/C14"),
 }
-PENDING_REASON = "check not built yet in this revision (planned, see DESIGN.md section 5); no claim is made"
+PENDING_REASON = "not claimed in this revision"
 def main():
     here = os.path.dirname(os.path.dirname(os.path.abspath(__file__)))
     hooks_commits = []
